@@ -105,10 +105,10 @@ var props = []*core.Property{
 		notCovered: []string{"truthfulness for every byte string as a whole (utf8.Valid semantics are trusted)"},
 		rules:      []*core.Rule{ruleBOMTable, rulePlainReturns, ruleASCIIClass, ruleTrim, ruleLatin, ruleSnifferMap, ruleRuneError, ruleLabelPaths}}),
 	mk(pd{id: "C12", level: "other",
-		levelText:  "Sniffer map roles; the XML decoder has a usable CharsetReader before the first token; every returned label is lower-cased (XML: strings.ToLower; HTML: in-place ASCII lower-casing tabulated over 256 bytes, before any use); BOM dominates the meta prescan; utf-16* -> utf-8; pragma decision table over the prescan state equals WHATWG, per-tag state is reset; the pragma value scanner tests for an opening quote after skipping the blanks behind the equals sign.",
-		technique:  "typestate (field store before first token call); finite-domain tabulation; dominance rules",
+		levelText:  "Sniffer map roles; the XML decoder has a usable CharsetReader before the first token; every returned label is lower-cased (XML: strings.ToLower; HTML: in-place ASCII lower-casing tabulated over 256 bytes, before any use); BOM dominates the meta prescan; utf-16* -> utf-8; pragma decision table over the prescan state equals WHATWG, per-tag state is reset; the pragma value scanner tests for an opening quote after skipping the blanks behind the equals sign; both quote characters open a value in the XML and the pragma reader, the closing quote is searched behind the opening one and the text between them returned; whitespace cutsets and the terminator set of a bare label are exactly the HTML ones; start tags and self-closing tags both reach the attribute reading; a label found is returned (reader answer pinned) and lies on the success side of decoder error / token type / search tests; charset attribute value and pragma scanner result flow into the label.",
+		technique:  "typestate (field store before first token call); finite-domain tabulation and evaluation with pinned values (quote byte, token kind, reader answer); dominance / polarity rules; value-flow through phis",
 		expl:       "decides the label plumbing around the x/net tokenizer and encoding/xml",
-		notCovered: []string{"the WHATWG prescan as implemented by x/net/html", "whitespace variants inside the XML declaration (only the choice of quote character is decided)", "the rest of the pragma value scanner (end of a bare or quoted label) beyond the order of its steps"},
+		notCovered: []string{"the WHATWG prescan as implemented by x/net/html", "whitespace variants inside the XML declaration (only the choice of quote character is decided)", "labels reached only through shapes the quote / terminator rules do not model (hand-written scanning loops) are undecided"},
 		rules:      []*core.Rule{ruleSnifferMap, ruleDecoderTypestate, ruleLowerCase, ruleHTMLOrder, rulePragmaValue, ruleXMLQuote, ruleHTMLTokens, ruleLabelPaths, ruleQuotedLabels, ruleParams, ruleReader, ruleLimitSlice}}),
 	mk(pd{id: "C13", level: "other",
 		levelText:  "Line cutting agrees with the JSON truncation table (same order types); both detectors pass their own (header, limit) through it first; NDJSON lines are judged by the parsed length; thresholds tabulated (lines >= 2 and containers >= 1; fields >= 2 and records >= 2); csv reader: FieldsPerRecord untouched, detector's delimiter, EOF ends, any other error rejects.",
